@@ -88,6 +88,7 @@ def bytes_of(x):
 
 def check_call(chk, key, f, args, kwargs, array_args, inp, is_integrator=False, rtol=1e-12):
     """call f(*args, **kwargs); `array_args` = indices/keys of array or list arguments to watch"""
+    if not chk.begin(key, inp): return None
     before = {}
     for k in array_args:
         v = args[k] if isinstance(k, int) else kwargs[k]
@@ -162,6 +163,7 @@ def l3_layout_and_effects(chk, ctx, rng, tier):
             for name, g in calls:
                 key = 'Spectrum.%s:layout=%s' % (name, lname)
                 b0 = bytes_of(fs); d0 = bytes_of(data)
+                if not chk.begin(key, dict(shape=shape, layout=lname)): continue
                 chk.l3((key,))
                 try:
                     r = g()
@@ -194,6 +196,7 @@ def l3_layout_and_effects(chk, ctx, rng, tier):
     for rep in range(3):
         p = [1.0, 2.0, 0.5]; lb = [0.1, None, 0.01]; ub = [10, None, 5]
         lb0, ub0, p0 = copy.deepcopy(lb), copy.deepcopy(ub), list(p)
+        if not chk.begin('perturb_params', dict(lb=lb0, ub=ub0)): continue
         chk.l3(('perturb_params',))
         np.random.seed(rep)
         try:
@@ -223,6 +226,61 @@ def k_memo(chk, ctx, rng):
         if not np.allclose(got, want, rtol=1e-10, atol=1e-300):
             chk.fail('memo:_cached_projection', '_cached_projection(%d,%d,%d) after a call history differs from the hypergeometric weights' % (m, n, h), dict(m=m, n=n, h=h))
 
+class EventChk:
+    """Check stub used inside the crash-isolated child: emits one JSON event per line.  `begin` announces the call about to be
+    made (so that a hard crash - heap corruption in the C kernels - is attributed to it) and skips cases already done."""
+    def __init__(self, skip):
+        self.n = 0; self.skip = skip
+    def emit(self, **kw):
+        import json
+        sys.stdout.write(json.dumps(common.jsonable(kw)) + '\n'); sys.stdout.flush()
+    def begin(self, key, inp):
+        self.n += 1
+        if self.n <= self.skip: return False
+        self.emit(ev='start', n=self.n, key=key, input=inp)
+        return True
+    def l3(self, key): self.emit(ev='l3', key=key)
+    def fail(self, key, what, inp): self.emit(ev='fail', key=key, what=what, input=inp)
+
+def worker_main():
+    path, seed, tier, skip = sys.argv[2], int(sys.argv[3]), sys.argv[4], int(sys.argv[5])
+    sys.path.insert(0, path)
+    import warnings, logging
+    warnings.filterwarnings('ignore'); logging.disable(logging.WARNING)
+    np.seterr(all='ignore')
+    import dadi
+    assert os.path.realpath(dadi.__file__).startswith(os.path.realpath(path))
+    chk = EventChk(skip)
+    l3_layout_and_effects(chk, dict(dadi=dadi), common.Rng(seed, 'C20-layout'), tier)
+    chk.emit(ev='done')
+
+def layout_isolated(chk, ctx, tier):
+    """run l3_layout_and_effects in a child process; restart after a hard crash, attributing it to the announced call"""
+    import json
+    path = ctx['scratch'] or ctx['repo']
+    skip = 0; crashes = 0
+    while True:
+        env = dict(os.environ); env['PYTHONPATH'] = common.VERIF
+        p = subprocess.run([sys.executable, '-m', 'harness.c20', 'worker', path, str(ctx['seed']), tier, str(skip)], cwd=common.VERIF,
+                           stdout=subprocess.PIPE, stderr=subprocess.PIPE, env=env, timeout=3000)
+        last = None; done = False
+        for line in p.stdout.decode(errors='replace').splitlines():
+            try: ev = json.loads(line)
+            except Exception: continue
+            if ev['ev'] == 'start': last = ev
+            elif ev['ev'] == 'l3': chk.l3(tuple(ev['key']) if isinstance(ev['key'], list) else ev['key'])
+            elif ev['ev'] == 'fail': chk.fail(ev['key'], ev['what'], ev['input'])
+            elif ev['ev'] == 'done': done = True
+        if done: break
+        if last is None:
+            raise common.Infra('C20 layout worker died before its first case: ' + p.stderr.decode(errors='replace')[-1500:])
+        crashes += 1
+        chk.fail(last['key'] + ':crash', 'the interpreter crashed (exit %s: %s) during %s' % (p.returncode, p.stderr.decode(errors='replace').strip().splitlines()[-1:] , last['key']), last['input'])
+        skip = last['n']
+        if crashes > 60:
+            break
+    chk.stats['layout_worker_crashes'] = crashes
+
 def run(chk, ctx):
     tier = ctx['tier']; rng = common.Rng(ctx['seed'], 'C20')
     chk.rule = ('(i) random interleavings (length 2-40, repeated calls) of 22 kinds of API calls vs each call in a fresh interpreter, results hashed bit-for-bit; '
@@ -232,9 +290,12 @@ def run(chk, ctx):
     chk.unproved = ['hash-seed independence, memory-layout independence, object identity and aliasing are runtime facts: monitored (L3), not provable in a pure model',
                     'the effect table is a conservative syntactic analysis (tools/gen_Effects.py), not a semantic proof; dynamic dispatch and C-level writes are covered by the byte comparisons only']
     chk.assumptions.append('fresh-interpreter reference runs use the same scratch build of dadi')
-    l3_layout_and_effects(chk, ctx, rng, tier)
+    layout_isolated(chk, ctx, tier)
     k_memo(chk, ctx, rng)
     history(chk, ctx, rng, tier)
 
 def replay(chk, ctx, data):
     run(chk, ctx)
+
+if __name__ == '__main__' and len(sys.argv) > 1 and sys.argv[1] == 'worker':
+    worker_main()
